@@ -322,7 +322,7 @@ class DiskPartitionsMBR(DiskPartitions):
         self._mem = mem
         self._header = header
         self._ss = sector_size
-        if len(self) == 1 and self[1].type == 0xEE:
+        if len(self) == 1 and 1 in self and self[1].type == 0xEE:
             raise ValueError(lang._('Protective MBR; use GPT instead'))
 
     @property
@@ -335,10 +335,12 @@ class DiskPartitionsMBR(DiskPartitions):
             ebr = MBRHeader.from_buffer(self._mem, logical_offset * self._ss)
             if ebr.boot_sig != 0xAA55:
                 raise ValueError(lang._('Bad EBR signature'))
-            # Yield the logical partition
+            # Yield the logical partition (unless the slot is unused, as in an
+            # empty extended partition or after deleting the first logical)
             part = MBRPartition.from_bytes(ebr.partition_1)
-            part = part._replace(first_lba=part.first_lba + logical_offset)
-            yield part
+            if part.part_type != 0x00:
+                part = part._replace(first_lba=part.first_lba + logical_offset)
+                yield part
             part = MBRPartition.from_bytes(ebr.partition_2)
             if part.part_type == 0x00 and part.first_lba == 0:
                 break
